@@ -65,7 +65,7 @@ class Ctx(S.Context):
                     self.ns["_FACT"][fd["factory"]] = G.unreify(fd["default"])
         self.step_overrides = {}    # id(step tuple) -> [(class, field, reified value)] in force when the step ran
         for c in self.asts:
-            exec(S.class_src(c), self.ns)
+            exec(L.class_src(c), self.ns)
         self.classes = {c["name"]: self.ns[c["name"]] for c in self.asts}
         self.instances = {
             "Inner": [("struct", "Inner", [("a", ("int", 1))]),
@@ -866,7 +866,7 @@ def violation_key(ctx, step, unstable, bad=None):
 
 
 def python_src(ctx, chain, env=None):
-    src = ctx.source() if env is None else "".join(S.class_src(c) + "\n" for c in [dict(c) for c in ctx.BASE] + list(env))
+    src = ctx.source() if env is None else "".join(L.class_src(c) + "\n" for c in [dict(c) for c in ctx.BASE] + list(env))
     fact0 = {fd["factory"]: fd["default"] for c in (ctx.asts if env is None else env) for fd in c["fields"]
              if fd.get("factory") is not None}
     pre = ""
